@@ -1659,6 +1659,11 @@ class Interp1dV:
         return r
 
     def getattr_model(self, ex, name):
+        if name in ("x", "y"):
+            used(ex, "interp1d.x / .y: the data the interpolant was built from")
+            return arr_copy(ex, self.x if name == "x" else self.y)
+        if name == "fill_value" and self.mode == "fill":
+            return (self.fill_lo, self.fill_hi)
         raise OutOfSubset("interp1d attribute " + name)
 
     # ---- instances of the assumed contract (used by contracts; each returns a list of formulas)
@@ -2031,8 +2036,15 @@ _reg("scipy.integrate.quad", quad)
 def curve_fit(ex, f, xdata, ydata, p0=None, bounds=None, **kw):
     """scipy.optimize.curve_fit(f, x, y, p0, bounds=(lo, hi)): ValueError unless lo <= p0 <= hi for every
     parameter; returns (popt, pcov) with lo <= popt <= hi, popt a local least-squares optimum."""
+    method = kw.pop("method", None)
     if kw:
         raise OutOfSubset(f"curve_fit options {sorted(kw)}")
+    if method is not None:
+        # 'trf' (the default with bounds) and 'dogbox' are both bounded methods with the same documented contract; which
+        # local optimum they reach is NOT part of the contract (the round-trip clause is decided by the bounded layer)
+        if method not in ("trf", "dogbox"):
+            raise OutOfSubset(f"curve_fit(method={method!r})")
+        ex.ghost.setdefault("curve_fit_method", []).append(method)
     used(ex, "scipy.optimize.curve_fit: ValueError unless lo <= p0 <= hi; result within [lo, hi] (local least-squares optimum)")
     p0 = [tm.lift(num(v)) for v in (p0.tolist() if isinstance(p0, ArrV) else list(p0))]
     n = len(p0)
